@@ -168,6 +168,10 @@ var c7Macros = []string{
 	"(defmacro m (a b) (quasiquote (list (unquote b) (unquote a) (unquote b))))",
 	"(defmacro m (a b) (let ((g (gensym))) (quasiquote (let (((unquote g) (unquote a))) (list (unquote g) (unquote b))))))",
 	"(defmacro m (a b) (quasiquote (list '(unquote a) (unquote b))))",
+	"(defmacro m (a b) 'k)",
+	"(defmacro m (a b) ''(q r))",
+	"(defmacro m (a b) (quasiquote (quote (unquote a))))",
+	"(defmacro m (a b) b)",
 }
 
 var c7Args = []string{"(probe 'p1)", "k", "(+ k 1)", "(probe (+ k 2))", "'(q r)", "(list (probe 'p3) k)"}
@@ -195,7 +199,7 @@ func VerifC07_EExpand() {
 	// macroexpand-1 iterated to a fixpoint is macroexpand
 	psC, rC, _ := run("(let* ((f '" + call + ") (e1 (macroexpand-1 f)) (e2 (macroexpand-1 e1)) (e3 (macroexpand-1 e2))) (list (string= (format-string \"{}\" e3) (format-string \"{}\" (macroexpand f))) (string= (format-string \"{}\" (macroexpand-1 (macroexpand f))) (format-string \"{}\" (macroexpand f)))))")
 	vAssert(len(psC.effects) == 0, "expansion alone evaluates no argument")
-	if mi != 6 { // gensym-using macros expand to different fresh names each time
+	if mi != 6 && mi < 8 { // gensym-using macros expand to different fresh names each time; macroexpand-1 of a non-list is an error
 		vAssert(rC.Type != lisp.LError && rC.String() == "'(true true)", "macroexpand-1 performs exactly one step of what macroexpand iterates: "+outcome(rC))
 	}
 	cleanRuntime(envA, "user")
